@@ -1179,3 +1179,294 @@ fn c19_next_u8() {
         kani::cover!(out == Some(None), "end of stream");
     }
 }
+
+// ---- two consecutive operations on one end --------------------------------------------
+//
+// write -> (partial) result -> the same buffer resumed with `write_buf`; and
+// the read-side twin.  Covers: the resumed buffer starts at the first unsent
+// ELEMENT (payloads wider than a byte), and an end on which the host has
+// reported DROPPED -- also together with a non-zero count, which the caller
+// only sees as `Complete(n)` -- is never handed to the intrinsic again (the
+// mock traps, as the canonical ABI does for an end in CopyState.DONE).
+
+unsafe fn check_write_res(res: StreamResult, before: usize) -> End {
+    let sent_now = H.log_n - before;
+    match res {
+        StreamResult::Complete(n) => {
+            assert!(n == sent_now, "write reports a different count than the host transferred");
+            End::Complete
+        }
+        StreamResult::Dropped => {
+            assert!(sent_now == 0 && H.reader_dropped, "write reports 'dropped' but the host did not say so");
+            End::Dropped
+        }
+        StreamResult::Cancelled => {
+            assert!(sent_now == 0, "write reports 'cancelled, nothing sent' but the host took items");
+            End::Cancelled
+        }
+    }
+}
+
+unsafe fn write_twice<T: Item, const LEN: usize>() {
+    let mut t1 = mt::new_v1_a();
+    let mut t2 = mt::new_v2_a();
+    install_task(&mut t1, &mut t2);
+    let mut cx = Context::from_waker(Waker::noop());
+    let handles = h_new();
+    H.elem_size = T::SIZE;
+    let mut tx = RawStreamWriter::new((handles >> 32) as u32, T::OPS);
+
+    // first write: one poll; if the host blocks, cancel() decides
+    let (res1, buf) = {
+        let mut f = pin!(tx.write(items::<T, LEN>()));
+        match f.as_mut().poll(&mut cx) {
+            Poll::Ready(x) => x,
+            Poll::Pending => {
+                pending_is_registered();
+                f.as_mut().cancel()
+            }
+        }
+    };
+    let end1 = check_write_res(res1, 0);
+    assert!(buf.remaining() == LEN - H.log_n, "buffer does not hold exactly the untransferred items");
+    let sent1 = H.log_n;
+    let dropped1 = H.reader_dropped;
+    let calls1 = H.writes_started;
+    let mut resumed = false;
+    let back;
+    if end1 == End::Complete && buf.remaining() > 0 {
+        // the caller was told `Complete(n)`, n < len: resume with the rest
+        resumed = true;
+        let (res2, buf2) = {
+            let mut f = pin!(tx.write_buf(buf));
+            match f.as_mut().poll(&mut cx) {
+                Poll::Ready(x) => x,
+                Poll::Pending => {
+                    pending_is_registered();
+                    f.as_mut().cancel()
+                }
+            }
+        };
+        let end2 = check_write_res(res2, sent1);
+        if dropped1 {
+            assert!(end2 == End::Dropped, "a write on an end whose peer is gone must report 'dropped'");
+            assert!(H.writes_started == calls1, "stream.write issued again although the host had reported DROPPED");
+        }
+        assert!(buf2.remaining() == LEN - H.log_n, "buffer does not hold exactly the untransferred items");
+        back = take_back_rest(buf2.into_vec(), H.log_n, LEN);
+    } else {
+        back = take_back_rest(buf.into_vec(), H.log_n, LEN);
+    }
+    drop(tx);
+    finish_write::<T>(LEN, back);
+    kani::cover!(resumed && sent1 == 1 && !dropped1 && H.log_n == LEN && H.writes_started == 2, "partial write, resumed, rest delivered");
+    kani::cover!(resumed && sent1 == 1 && dropped1 && H.writes_started == 1, "DROPPED with one item transferred; the resumed write is refused without calling the host");
+    kani::cover!(!resumed && H.log_n == LEN, "everything in the first write");
+}
+
+macro_rules! c19w2 {
+    ($name:ident, $t:ty, $len:expr) => {
+        #[kani::proof]
+        #[kani::unwind(5)]
+        #[kani::stub(wit_bindgen::rt::async_support::cabi::wasip3_task_set, crate::mock_task::stub_task_set)]
+        fn $name() {
+            unsafe { write_twice::<$t, $len>() }
+        }
+    };
+}
+c19w2!(c19_write2_u8, u8, 2);
+c19w2!(c19_write2_u32, u32, 2);
+c19w2!(c19_deep_write2_u64_len3, u64, 3);
+
+#[kani::proof]
+#[kani::unwind(5)]
+#[kani::stub(wit_bindgen::rt::async_support::cabi::wasip3_task_set, crate::mock_task::stub_task_set)]
+fn c19_read2_u8() {
+    unsafe {
+        let mut t1 = mt::new_v1_a();
+        let mut t2 = mt::new_v2_a();
+        install_task(&mut t1, &mut t2);
+        let mut cx = Context::from_waker(Waker::noop());
+        let handles = h_new();
+        let mut rx = RawStreamReader::new(handles as u32, OpsU8);
+        let (res1, v) = {
+            let mut f = pin!(rx.read(Vec::<u8>::with_capacity(2)));
+            match f.as_mut().poll(&mut cx) {
+                Poll::Ready(x) => x,
+                Poll::Pending => {
+                    pending_is_registered();
+                    f.as_mut().cancel()
+                }
+            }
+        };
+        let got1 = H.produced_n;
+        let dropped1 = H.writer_dropped;
+        let calls1 = H.reads_started;
+        assert!(v.len() == got1, "read exposes a different number of items than the host stored");
+        let mut second = false;
+        let v = if let StreamResult::Complete(n) = res1 {
+            assert!(n == got1);
+            if n == 1 {
+                // one slot of spare capacity left: read again into the same vector
+                second = true;
+                let (res2, v2) = {
+                    let mut f = pin!(rx.read(v));
+                    match f.as_mut().poll(&mut cx) {
+                        Poll::Ready(x) => x,
+                        Poll::Pending => {
+                            pending_is_registered();
+                            f.as_mut().cancel()
+                        }
+                    }
+                };
+                if dropped1 {
+                    assert!(res2 == StreamResult::Dropped, "a read on an end whose peer is gone must report 'dropped'");
+                    assert!(H.reads_started == calls1, "stream.read issued again although the host had reported DROPPED");
+                }
+                if let StreamResult::Complete(m) = res2 {
+                    assert!(m == H.produced_n - got1, "second read reports a different count than the host transferred");
+                }
+                v2
+            } else {
+                v
+            }
+        } else {
+            assert!(got1 == 0);
+            v
+        };
+        drop(rx);
+        let held = take_read(v, 2);
+        finish_read::<u8>(held);
+        kani::cover!(second && !dropped1 && H.produced_n == 2 && H.reads_started == 2, "partial read, second read fills the vector");
+        kani::cover!(second && dropped1 && H.reads_started == 1, "DROPPED with one item; the next read is refused without calling the host");
+    }
+}
+
+// ---- per-copy length clamp (Buffer.MAX_LENGTH = 2^28 - 1) --------------------------------
+//
+// A vector of 2^28 real items is out of CBMC's reach, but a vector of
+// zero-sized items has any length without any storage: the payload of a
+// `stream` without element type.  The length is symbolic over all of usize.
+
+const MAX_LENGTH: usize = (1 << 28) - 1;
+
+#[derive(Clone, Copy)]
+struct OpsZst;
+
+unsafe impl StreamOps for OpsZst {
+    type Payload = ();
+    fn new(&mut self) -> u64 {
+        unsafe { h_new() }
+    }
+    fn elem_layout(&self) -> Layout {
+        Layout::new::<()>()
+    }
+    fn native_abi_matches_canonical_abi(&self) -> bool {
+        true
+    }
+    fn contains_lists(&self) -> bool {
+        false
+    }
+    unsafe fn lower(&mut self, _: (), _: *mut u8) {
+        assert!(false);
+    }
+    unsafe fn dealloc_lists(&mut self, _: *mut u8) {
+        assert!(false);
+    }
+    unsafe fn lift(&mut self, _: *mut u8) {
+        assert!(false);
+    }
+    unsafe fn start_write(&mut self, s: u32, _: *const u8, n: usize) -> u32 {
+        assert!(s == H.wh);
+        H.writes_started += 1;
+        H.z_offered = n;
+        assert!(n <= MAX_LENGTH, "stream.write offered more than Buffer.MAX_LENGTH = 2^28 - 1 items (host traps)");
+        let k = any_k(if n == 0 { 0 } else { 1 }, n);
+        H.z_k = k;
+        COMPLETED | ((k as u32) << 4)
+    }
+    unsafe fn start_read(&mut self, s: u32, _: *mut u8, n: usize) -> u32 {
+        assert!(s == H.rh);
+        H.reads_started += 1;
+        H.z_offered = n;
+        assert!(n <= MAX_LENGTH, "stream.read offered more than Buffer.MAX_LENGTH = 2^28 - 1 items (host traps)");
+        let k = any_k(if n == 0 { 0 } else { 1 }, n);
+        H.z_k = k;
+        COMPLETED | ((k as u32) << 4)
+    }
+    unsafe fn cancel_read(&mut self, _: u32) -> u32 {
+        assert!(false, "nothing to cancel");
+        0
+    }
+    unsafe fn cancel_write(&mut self, _: u32) -> u32 {
+        assert!(false, "nothing to cancel");
+        0
+    }
+    unsafe fn drop_readable(&mut self, s: u32) {
+        h_drop_readable(s)
+    }
+    unsafe fn drop_writable(&mut self, s: u32) {
+        h_drop_writable(s)
+    }
+}
+
+#[kani::proof]
+#[kani::unwind(2)]
+fn c19_maxlen_write_zst() {
+    unsafe {
+        let len: usize = kani::any();
+        let mut v: Vec<()> = Vec::new();
+        v.set_len(len);
+        let mut cx = Context::from_waker(Waker::noop());
+        let handles = h_new();
+        let mut tx = RawStreamWriter::new((handles >> 32) as u32, OpsZst);
+        {
+            let mut f = pin!(tx.write(v));
+            match f.as_mut().poll(&mut cx) {
+                Poll::Ready((res, buf)) => {
+                    assert!(H.writes_started == 1);
+                    let want = if len < MAX_LENGTH { len } else { MAX_LENGTH };
+                    assert!(H.z_offered == want, "stream.write must be offered min(remaining, 2^28 - 1) items");
+                    assert!(res == StreamResult::Complete(H.z_k), "write reports a different count than the host transferred");
+                    assert!(buf.remaining() == len - H.z_k, "buffer does not hold exactly the untransferred items");
+                    let rest = buf.into_vec();
+                    assert!(rest.len() == len - H.z_k);
+                }
+                Poll::Pending => assert!(false, "host answered at once"),
+            }
+        }
+        drop(tx);
+        kani::cover!(len == MAX_LENGTH + 1 && H.z_offered == MAX_LENGTH, "2^28 items: one copy of 2^28 - 1");
+        kani::cover!(len == usize::MAX && H.z_k == MAX_LENGTH, "usize::MAX items, a full copy");
+        kani::cover!(len == 5 && H.z_k == 2, "short vector, partial copy");
+    }
+}
+
+#[kani::proof]
+#[kani::unwind(2)]
+fn c19_maxlen_read_zst() {
+    unsafe {
+        let len: usize = kani::any();
+        let mut v: Vec<()> = Vec::new();
+        v.set_len(len);
+        let mut cx = Context::from_waker(Waker::noop());
+        let handles = h_new();
+        let mut rx = RawStreamReader::new(handles as u32, OpsZst);
+        {
+            let mut f = pin!(rx.read(v));
+            match f.as_mut().poll(&mut cx) {
+                Poll::Ready((res, out)) => {
+                    let spare = usize::MAX - len; // capacity of a Vec of zero-sized items is usize::MAX
+                    let want = if spare < MAX_LENGTH { spare } else { MAX_LENGTH };
+                    assert!(H.z_offered == want, "stream.read must be offered min(spare capacity, 2^28 - 1) items");
+                    assert!(res == StreamResult::Complete(H.z_k), "read reports a different count than the host transferred");
+                    assert!(out.len() == len + H.z_k, "read exposes a different number of items than the host stored");
+                }
+                Poll::Pending => assert!(false, "host answered at once"),
+            }
+        }
+        drop(rx);
+        kani::cover!(len == 0 && H.z_offered == MAX_LENGTH && H.z_k == MAX_LENGTH, "empty vector: one copy of 2^28 - 1");
+        kani::cover!(len == usize::MAX - 3 && H.z_k == 3, "three slots of spare capacity");
+    }
+}
